@@ -9,7 +9,7 @@
     [line_num] and [_last_was_cr] after the call, or the error site with its line; it ends at the first error. *)
 From Coq Require Import List NArith ZArith Bool.
 From SV Require Import Text.Str Text.Prog Text.ProgProofs Text.Tokenizer Text.TokenizerProofs Text.KvErrModel Text.KvErrProofs
-  Text.BaseTok Text.BaseTokProofs Text.BaseTokTokenizer.
+  Text.BaseTok Text.BaseTokProofs Text.BaseTokTokenizer Text.BaseTokHelpers.
 Import ListNotations.
 
 (** Generic: NO reader program can tell a chunked source from the flat string it denotes — same result, and the
@@ -115,6 +115,12 @@ Theorem c03_kvparse_text_typed : forall T cfg ko ae flags defaults, cfg_safe cfg
   snd tr <> Some RFuel /\ forall s, kv_parse_text T cfg ko ae flags defaults text <> OForeign s.
 Proof. exact kv_parse_text_typed. Qed.
 
+(** ... and the outcome (ok / which KeyValError, including the tokenizer error and its line when that ends the stream)
+    is the same whether the text is passed as one string or as any sequence of chunks. *)
+Theorem c03_kvparse_any_chunking : forall T cfg ko ae flags defaults cs,
+  kv_parse_chunks T cfg ko ae flags defaults cs = kv_parse_text T cfg ko ae flags defaults (concat cs).
+Proof. exact kv_parse_any_chunking. Qed.
+
 (** The guards are not decoration (these are the shapes the pinned tree had before the fixes, and seeded fault c03_2):
     an empty flag with an index test, a flagged keyvalue after a skipped block, a skipped block in single-block mode. *)
 Definition all_guarded : kcfg := {| bang_total := true; guard_replace_block := true; guard_replace_leaf := true;
@@ -178,6 +184,16 @@ Theorem c03_basetok_expect_chunk_independent : forall T o fuel c f want skip pbl
   fst (expect _ _ (tk_get_flat T o fuel) c f want skip {| pb := pbl; src := (line, lcr, l) |})
   = fst (expect _ _ (tk_get_chk T o fuel) c f want skip {| pb := pbl; src := (line, lcr, s) |}).
 Proof. exact bt_expect_chunk_independent. Qed.
+
+(** [expect(token)] on the logical stream: the NEWLINE tokens in front are skipped (NEWLINE itself not being wanted),
+    the first other token [x] decides: its value is returned if it is the wanted kind, otherwise the error names [x] —
+    whether those tokens come from the push-back list or from the source. *)
+Theorem c03_basetok_expect_spec : forall (S E : Type) (get : S -> (ptok + E) * S) c nls fuel want b n x rest,
+  Forall (fun t => is_tok NEWLINE t = true) nls -> is_tok NEWLINE x = false ->
+  is_tok NEWLINE (want, []) = false -> (length nls < fuel)%nat ->
+  view S E get c n b = map inl nls ++ inl x :: rest ->
+  fst (expect S E get c fuel want true b) = if is_tok want x then HVal (snd x) else HErr x.
+Proof. exact expect_spec. Qed.
 
 (** [IterTokenizer]: delivers the wrapped items, then (EOF, '') for ever. *)
 Theorem c03_itertokenizer_stream : forall l n, (length l <= n)%nat ->
